@@ -28,8 +28,8 @@ type kvState struct {
 	keys []string
 	vals map[string][]byte
 	hash string
-	thr  float64
-	tol  float64
+	thrs []float64 // scanner settings that may be in force in this state (acknowledged value, or the values of setter calls in flight / that overlapped)
+	tols []float64
 	recs map[string]detection.Signature // decoded sig: records (lazy)
 }
 
@@ -68,8 +68,8 @@ func (st *kvState) justifiedBy(alerts []detection.ScanResult, topo *topology.Fun
 	return ""
 }
 
-func dumpKV(db *pebble.DB) ([]string, map[string][]byte) {
-	snap := db.NewSnapshot()
+func dumpKV(s *PebbleScanner) ([]string, map[string][]byte) {
+	snap := s.GetSnapshot()
 	defer snap.Close()
 	it, err := snap.NewIter(nil)
 	if err != nil {
@@ -92,8 +92,8 @@ func dumpKV(db *pebble.DB) ([]string, map[string][]byte) {
 // dumpHot reads only the key ranges that can matter for the hot signatures and
 // the pool topologies (bulk runs hold thousands of filler signatures under
 // other hashes; dumping them after every step would dominate the run).
-func dumpHot(db *pebble.DB) ([]string, map[string][]byte) {
-	snap := db.NewSnapshot()
+func dumpHot(s *PebbleScanner) ([]string, map[string][]byte) {
+	snap := s.GetSnapshot()
 	defer snap.Close()
 	vals := map[string][]byte{}
 	var keys []string
@@ -137,9 +137,9 @@ func snapshotState(s *PebbleScanner) *kvState {
 	var keys []string
 	var vals map[string][]byte
 	if hotOnly {
-		keys, vals = dumpHot(s.db)
+		keys, vals = dumpHot(s)
 	} else {
-		keys, vals = dumpKV(s.db)
+		keys, vals = dumpKV(s)
 	}
 	var sb strings.Builder
 	for _, k := range keys {
@@ -148,9 +148,60 @@ func snapshotState(s *PebbleScanner) *kvState {
 		sb.Write(vals[k])
 		sb.WriteByte(1)
 	}
-	// all tasks are parked: reading the fields directly is race-free
-	return &kvState{keys: keys, vals: vals, hash: vs.Hash(sb.String()), thr: s.matchThreshold, tol: s.entropyTolerance}
+	// the scanner settings are tracked from the setter calls the harness makes
+	// (the store has no getter; no private field is read)
+	return &kvState{keys: keys, vals: vals, hash: vs.Hash(sb.String()), thrs: thrTrack.possible(), tols: tolTrack.possible()}
 }
+
+// settingTrack follows one scanner setting through the setter calls of the
+// (cooperatively scheduled) writer tasks. A setter that runs alone leaves
+// exactly its value; setters of the same field that overlap leave any of
+// their values; while a setter is in flight both old and new are possible.
+type settingTrack struct {
+	cands    []float64 // possible values when no setter is in flight
+	group    []float64 // values of the setters of the current overlapping group
+	inflight int
+}
+
+func (p *settingTrack) reset(v float64) { p.cands, p.group, p.inflight = []float64{v}, nil, 0 }
+func (p *settingTrack) begin(v float64) { p.inflight++; p.group = append(p.group, v) }
+func (p *settingTrack) end() {
+	p.inflight--
+	if p.inflight == 0 {
+		p.cands, p.group = uniqSorted(p.group), nil
+	}
+}
+func (p *settingTrack) possible() []float64 {
+	if p.inflight == 0 {
+		return p.cands
+	}
+	return uniqSorted(append(append([]float64(nil), p.cands...), p.group...))
+}
+
+func uniqSorted(xs []float64) []float64 {
+	out := append([]float64(nil), xs...)
+	sort.Float64s(out)
+	k := 0
+	for i, x := range out {
+		if i == 0 || x != out[k-1] {
+			out[k] = x
+			k++
+		}
+	}
+	return out[:k]
+}
+
+func (st *kvState) paramPairs() [][2]float64 {
+	var ps [][2]float64
+	for _, a := range st.thrs {
+		for _, b := range st.tols {
+			ps = append(ps, [2]float64{a, b})
+		}
+	}
+	return ps
+}
+
+var thrTrack, tolTrack settingTrack
 
 // specScanKV evaluates a scan sequentially on one committed key-value state:
 // walk the index entries for the hash, apply the packed entropy filter, fetch
@@ -208,11 +259,12 @@ const (
 	scCands
 	scBatch
 	scBigBatch // one ScanBatch call over >512 functions
+	scGet      // GetSignature of a hot ID (lock-free lookup by ID)
 )
 
 const bigBatchN = 530
 
-var scanNames = []string{"ScanTopology", "ScanTopologyExact", "ScanCandidates", "ScanBatch", "ScanBatch(530 functions)"}
+var scanNames = []string{"ScanTopology", "ScanTopologyExact", "ScanCandidates", "ScanBatch", "ScanBatch(530 functions)", "GetSignature"}
 
 type readerOp struct {
 	kind scanKind
@@ -227,6 +279,7 @@ type scanRecord struct {
 	exact    *detection.ScanResult
 	cands    []*detection.Signature
 	batch    map[string][]detection.ScanResult
+	got      *detection.Signature
 	err      error
 }
 
@@ -291,6 +344,8 @@ func runC11(t *vs.Tape, cfg map[string]string) (res vs.Result) {
 		return
 	}
 	defer s.Close()
+	thrTrack.reset(m.threshold)
+	tolTrack.reset(m.tolerance)
 	tag := 0
 	hot := []string{"X", "Y"}
 	// initial content
@@ -312,7 +367,10 @@ func runC11(t *vs.Tape, cfg map[string]string) (res vs.Result) {
 	if cfg["tier"] == "thorough" {
 		bulkDen = 60
 	}
-	bulk := cfg["writers_only"] != "1" && t.Chance("c11.bulk", 1, bulkDen)
+	if cfg["writers_only"] == "1" {
+		bulkDen = 2 * bulkDen / 3 // runs are cheaper without readers
+	}
+	bulk := t.Chance("c11.bulk", 1, bulkDen)
 	hotOnly = bulk
 	defer func() { hotOnly = false }()
 	if bulk {
@@ -335,13 +393,19 @@ func runC11(t *vs.Tape, cfg map[string]string) (res vs.Result) {
 		nR = 0
 		nW = 2 + t.Intn(2, "n.writers3")
 	}
+	rkw := []int{40, 30, 20, 20, 1, 15}
+	if cfg["getters"] == "1" {
+		// writers plus 1-2 tasks that only fetch signatures by ID
+		nR = 1 + t.Intn(2, "n.getters")
+		rkw = []int{0, 0, 0, 0, 0, 1}
+	}
 	var rprog [][]readerOp
 	var wprog [][]writerOp
 	for i := 0; i < nR; i++ {
 		var ops []readerOp
 		n := 1 + t.Intn(4, "r.nops")
 		for j := 0; j < n; j++ {
-			ops = append(ops, readerOp{kind: scanKind(t.Weighted("r.kind", 40, 30, 20, 20, 1)), topo: t.Weighted("r.topo", 3, 2, 3, 1)})
+			ops = append(ops, readerOp{kind: scanKind(t.Weighted("r.kind", rkw...)), topo: t.Weighted("r.topo", 3, 2, 3, 1)})
 		}
 		rprog = append(rprog, ops)
 	}
@@ -402,7 +466,7 @@ func runC11(t *vs.Tape, cfg map[string]string) (res vs.Result) {
 	sim.OnStep = func(step int, _ *vs.Task, _ string) {
 		st := snapshotState(s)
 		prev := timeline[len(timeline)-1]
-		if st.hash == prev.hash && st.thr == prev.thr && st.tol == prev.tol {
+		if st.hash == prev.hash && fmt.Sprint(st.thrs, st.tols) == fmt.Sprint(prev.thrs, prev.tols) {
 			st = prev // share
 		}
 		timeline = append(timeline, st)
@@ -435,6 +499,8 @@ func runC11(t *vs.Tape, cfg map[string]string) (res vs.Result) {
 						in[fmt.Sprintf("g%03d", k)] = poolTopos[k%len(poolTopos)]
 					}
 					rec.batch = s.ScanBatch(in)
+				case scGet:
+					rec.got, rec.err = s.GetSignature(hot[op.topo%2])
 				}
 				rec.ret = sim.Steps()
 				records = append(records, rec)
@@ -468,9 +534,13 @@ func runC11(t *vs.Tape, cfg map[string]string) (res vs.Result) {
 				case opRebuild:
 					s.RebuildIndexes()
 				case opSetThreshold:
+					thrTrack.begin(op.f)
 					s.SetThreshold(op.f)
+					thrTrack.end()
 				case opSetTolerance:
+					tolTrack.begin(op.f)
 					s.SetEntropyTolerance(op.f)
+					tolTrack.end()
 				case opMarkFP:
 					s.MarkFalsePositive(op.id, "n")
 				case opCheckpoint:
@@ -520,7 +590,7 @@ func runC11(t *vs.Tape, cfg map[string]string) (res vs.Result) {
 
 	overlapping := 0
 	for _, rec := range records {
-		if rec.err != nil {
+		if rec.err != nil && rec.op.kind != scGet {
 			res.Violation = vs.Violationf("C11/scan-error", "%s %s(%s) failed during concurrent writes: %v", rec.task, scanNames[rec.op.kind], poolTopoNames[rec.op.topo], rec.err)
 			return
 		}
@@ -542,10 +612,11 @@ func runC11(t *vs.Tape, cfg map[string]string) (res vs.Result) {
 		pseen := map[[2]float64]bool{}
 		for i := lo; i <= hi; i++ {
 			stateSet[timeline[i].hash] = true
-			p := [2]float64{timeline[i].thr, timeline[i].tol}
-			if !pseen[p] {
-				pseen[p] = true
-				params = append(params, p)
+			for _, p := range timeline[i].paramPairs() {
+				if !pseen[p] {
+					pseen[p] = true
+					params = append(params, p)
+				}
 			}
 		}
 		if len(stateSet) > 1 {
@@ -604,7 +675,6 @@ func runC11(t *vs.Tape, cfg map[string]string) (res vs.Result) {
 		final = snapshotState(s) // the end-state model needs every record, fillers included
 	}
 	fm := newStoreModel()
-	fm.threshold, fm.tolerance = final.thr, final.tol
 	for _, k := range final.keys {
 		if strings.HasPrefix(k, "sig:") {
 			var sg detection.Signature
@@ -613,7 +683,16 @@ func runC11(t *vs.Tape, cfg map[string]string) (res vs.Result) {
 			}
 		}
 	}
-	if v := checkAll(s, fm, scopeFull, false, "after all tasks finished: "); v != nil {
+	// scanner settings: the value of the last setter call per field (any of them
+	// where setter calls of the same field overlapped)
+	var v *vs.Violation
+	for _, p := range final.paramPairs() {
+		fm.threshold, fm.tolerance = p[0], p[1]
+		if v = checkAll(s, fm, scopeFull, false, "after all tasks finished: "); v == nil {
+			break
+		}
+	}
+	if v != nil {
 		v.Class = "C11/final-state/" + v.Class
 		if cfg["writers_only"] == "1" {
 			v.Class = "C06/concurrent-writers/" + strings.TrimPrefix(v.Class, "C11/final-state/")
@@ -623,6 +702,30 @@ func runC11(t *vs.Tape, cfg map[string]string) (res vs.Result) {
 		return
 	}
 	c.Inc("final_states_checked")
+	// Every writer has been acknowledged: had the machine died now, the reopened
+	// store must hold exactly this state, indexes consistent with the records
+	// (the crash clause of C07 for histories with more than one caller).
+	if cfg["crash_at_end"] == "1" {
+		log := disk.Log()
+		img := simdisk.Image(log, len(log), simdisk.CrashStrict, &simdisk.SeedChooser{S: 7})
+		simdisk.SetCurrent(img)
+		s2, err := openStore(fm)
+		if err != nil {
+			simdisk.SetCurrent(disk)
+			res.Violation = vs.Violationf("C07/concurrent/reopen-error", "store does not reopen after a machine crash following concurrent writers: %v  [writers: %v]", err, wtrace)
+			return
+		}
+		v := checkAll(s2, fm, scopeFull, false, "after a machine crash once every concurrent writer had been acknowledged: ")
+		s2.Close()
+		simdisk.SetCurrent(disk)
+		if v != nil {
+			v.Class = "C07/concurrent/" + v.Class
+			v.Msg += fmt.Sprintf("  [writers: %v]", wtrace)
+			res.Violation = v
+			return
+		}
+		c.Inc("crash_images_after_concurrent_writers")
+	}
 	c.Add("scans_overlapping_commit", int64(overlapping))
 	if len(pseenAll(timeline)) > 1 {
 		c.Inc("runs_with_param_change")
@@ -634,7 +737,9 @@ func runC11(t *vs.Tape, cfg map[string]string) (res vs.Result) {
 func pseenAll(tl []*kvState) map[[2]float64]bool {
 	m := map[[2]float64]bool{}
 	for _, st := range tl {
-		m[[2]float64{st.thr, st.tol}] = true
+		for _, p := range st.paramPairs() {
+			m[p] = true
+		}
 	}
 	return m
 }
@@ -643,6 +748,9 @@ func describeRecord(rec *scanRecord) string {
 	var parts []string
 	for _, a := range rec.alerts {
 		parts = append(parts, fmt.Sprintf("%s/%s/%.3f/topoMatch=%v", a.SignatureID, a.SignatureName, a.Confidence, a.MatchDetails.TopologyMatch))
+	}
+	if rec.got != nil {
+		parts = append(parts, "got:"+normSig(*rec.got))
 	}
 	if rec.exact != nil {
 		parts = append(parts, fmt.Sprintf("exact:%s/%s/%.3f", rec.exact.SignatureID, rec.exact.SignatureName, rec.exact.Confidence))
@@ -697,6 +805,26 @@ func matchRecord(rec *scanRecord, st *kvState, thr, tol float64, allParams [][2]
 	topo := poolTopos[rec.op.topo]
 	name := poolTopoNames[rec.op.topo]
 	switch rec.op.kind {
+	case scGet:
+		id := []string{"X", "Y"}[rec.op.topo%2]
+		raw, live := st.vals["sig:"+id]
+		if !live {
+			if rec.err == nil {
+				return fmt.Sprintf("GetSignature(%q) returned a signature although no record exists in this state", id)
+			}
+			return ""
+		}
+		var want detection.Signature
+		if err := decodeSignature(raw, &want); err != nil {
+			return "record does not decode: " + err.Error()
+		}
+		if rec.err != nil || rec.got == nil {
+			return fmt.Sprintf("GetSignature(%q) failed (%v) although the record exists", id, rec.err)
+		}
+		if normSig(*rec.got) != normSig(want) {
+			return fmt.Sprintf("GetSignature(%q) returned %s, the record of this state is %s", id, normSig(*rec.got), normSig(want))
+		}
+		return ""
 	case scScan:
 		want, _ := specScanKV(st, topo, name, thr, tol, false, false)
 		if v := compareAlerts("x", "scan", rec.alerts, want); v != nil {
